@@ -179,6 +179,13 @@ def materialize(desc):
         obj = None
         body = ""
         expect = {"kind": "error", "id": None}
+    elif k == "long_clen":
+        # the client announces more bytes than it sends and then half-closes: the server reads what there is (end of file
+        # ends the chunk loop) and serves that text
+        obj = _call("echo", [tok, payload], rid)
+        clen_mode = k
+        tokens[tok] = 1
+        expect = {"kind": "result", "id": rid, "result": [tok, payload]}
     elif k in ("no_clen", "bad_clen", "short_clen"):
         obj = _call("echo", [tok, payload], rid)
         clen_mode = k
@@ -201,6 +208,8 @@ def materialize(desc):
         clen = None
     elif clen_mode == "bad_clen":
         clen = "abc"
+    elif clen_mode == "long_clen":
+        clen = len(raw_body) + 5
     else:
         clen = max(0, len(raw_body) - 3)
     head = "POST %s HTTP/1.0\r\nHost: localhost\r\nContent-Type: application/json-rpc\r\n" % path
@@ -208,7 +217,7 @@ def materialize(desc):
         head += "Content-Length: %s\r\n" % clen
     raw = head.encode("ascii") + b"\r\n" + raw_body
     return {"k": k, "path": path, "body": body, "clen": clen if isinstance(clen, int) else None, "tokens": tokens,
-            "expect": expect, "raw": raw}
+            "expect": expect, "raw": raw, "half_close": clen_mode == "long_clen"}
 
 
 def in_model(k):
@@ -218,7 +227,7 @@ def in_model(k):
 
 # ---------------------------------------------------------------- raw client
 
-def http_exchange(family, address, raw, timeout=IO_TIMEOUT):
+def http_exchange(family, address, raw, timeout=IO_TIMEOUT, half_close=False):
     """One connection: send the bytes, read until the server closes.  Returns the bytes received, or an
     exception instance."""
     s = socket.socket(family, socket.SOCK_STREAM)
@@ -230,6 +239,8 @@ def http_exchange(family, address, raw, timeout=IO_TIMEOUT):
         s.settimeout(timeout)
         if raw:
             s.sendall(raw)
+            if half_close:
+                s.shutdown(socket.SHUT_WR)
         else:
             s.shutdown(socket.SHUT_WR)
         chunks = []
